@@ -98,7 +98,9 @@ def gen_program(rng, qbytes=256, nthreads=None, maxops=8, flushes=True, style=No
                     nbytes = rng.randint(1, cap)
                 n = max(1, nbytes * 8 // bits)
                 if bits < 8 and rng.random() < 0.5:
-                    n = max(8, n - n % 8)          # keep sub-byte signals byte aligned most of the time
+                    n = max(8, n - n % 8)
+                elif bits < 8:
+                    n = max(1, n - rng.randint(1, 8 // bits - 1))     # the last byte of the payload is only partly used
                 ops.append(("F", g, n))
             elif r < 0.65 and nanno[g] < 9:
                 nanno[g] += 1
